@@ -37,6 +37,8 @@ for d in sorted(glob.glob(os.path.join(V, "seeded", "*"))):
     cross = ", ".join("%s: %s" % (k, v.get("exit")) for k, v in sorted((m.get("cross") or {}).items()))
     fin = m.get("final") or {}
     final = "" if not fin else ("n/a" if not fin.get("applies") else ("build fails" if fin.get("builds") is False else str(fin.get("exit"))))
+    if m.get("final_note"):
+        final += " (" + m["final_note"].replace("|", "\\|") + ")"
     out.append("| %s | %s | %s | %s | %s | %s | %s | %s |" % (m["id"], m["property"], need, q, t, hist, cross, final))
 out += ["", "### 12.3 Per-property and per-growth-item implementation notes", "",
         "Growth items (`Gnn`, DESIGN section 5 / BUILDERS.md growth brief) extend the specification beyond the twenty listed properties; each has its own statement at the top of its notes, its own `./check Gnn quick|thorough`, and is not part of MANIFEST.json's property claims.", "",
